@@ -62,6 +62,7 @@ fn add_stats(stats: &mut Stats, o: &XRunObs) {
     stats.add("F5_collections", s.collections);
     stats.add("F5_nodes_collected", s.collected_nodes);
     stats.add("xml_pauses_script", s.pauses_script);
+    stats.add("F15_feeds_followed_by_a_fresh_queue", s.fresh_queues);
     stats.add("F11_script_detached_an_element", s.script_removals);
 }
 
@@ -304,6 +305,11 @@ fn candidates(c: &XmlCase) -> Vec<XmlCase> {
         n.schedule.pauses.clear();
         out.push(n);
     }
+    if s.fresh_queue {
+        let mut n = c.clone();
+        n.schedule.fresh_queue = false;
+        out.push(n);
+    }
     if s.truncate_at.is_some() {
         let mut n = c.clone();
         n.schedule.truncate_at = None;
@@ -441,7 +447,7 @@ impl World for XmlWorld {
         candidates(&case).iter().map(|c| self.emit(c, &mode)).collect()
     }
     fn rule(&self) -> String {
-        "XML case = (grammar-generated malformed XML with namespaces, PIs, CDATA, doctypes, CR/NUL in every position; tokenizer options; pipeline tokenizer+policy sink or tokenizer+tree builder+model DOM; one schedule); C15/C08 cases also carry a comparison mode (schedule | exact_errors | profile | discard_bom | normalised reference); non-trivial = non-empty input and a schedule with at least one interior cut or fault event, or a comparison mode other than 'schedule'; distinct = distinct hash of (input, schedule, pipeline, options, mode)".into()
+        "XML case = (grammar-generated malformed XML with namespaces, PIs, CDATA, doctypes, CR/NUL in every position, one in 100..250 from the XML scale family; tokenizer options; pipeline tokenizer+policy sink or tokenizer+tree builder+model DOM; one schedule); C15/C08 cases also carry a comparison mode (schedule | exact_errors | profile | discard_bom | normalised reference); non-trivial = non-empty input and a schedule with at least one interior cut or fault event, or a comparison mode other than 'schedule'; distinct = distinct hash of (input, schedule, pipeline, options, mode)".into()
     }
     fn components(&self) -> Value {
         json!({
